@@ -105,7 +105,11 @@ def run_impl(case):
             p.parse(io.BytesIO(data))
         elif case['mode'] == 'pushb':
             pos = 0
-            for ch in doc_children(case):
+            for ci, ch in enumerate(doc_children(case)):
+                if case.get('late') and ci == case['late'][0]:
+                    # handlers registered while the stream is being read: they see every event that arrives afterwards
+                    for kind, keys, h in case['late'][1]:
+                        (p.set_event_type_handler if kind == 'T' else p.set_event_source_handler)(keys, mk(h))
                 end = data.index(ch.encode(), pos) + len(ch.encode())
                 p.feed(data[pos:end])
                 pos = end
@@ -128,7 +132,7 @@ def expected(case):
     (independent of the Coq model): per event the handlers per key, in registration order."""
     out = []
     have, kt, ks, idx = False, [], [], 0
-    for o in case['doc']:
+    for di, o in enumerate(case['doc']):
         if o[0] == 'O':
             have = True
             kt += [t for t in o[1] if t not in kt]
@@ -138,9 +142,10 @@ def expected(case):
             _, t, s = o
             if not have or s not in ks or t not in kt:
                 break
-            th = [h for k, keys, h in case['regs'] if k == 'T' for n in keys if n == t]
+            regs_now = list(case['regs']) + (list(case['late'][1]) if case.get('late') and di >= case['late'][0] else [])
+            th = [h for k, keys, h in regs_now if k == 'T' for n in keys if n == t]
             sh = {}
-            for k, keys, h in case['regs']:
+            for k, keys, h in regs_now:
                 if k == 'S':
                     for pat in keys:
                         if re.match(pat, s):
@@ -256,7 +261,7 @@ def main(argv):
     ck = Check(PID, ANCHORS)
     ck.trusted += ['Python re.match used to tabulate pattern/URI matches for the model (Section variable re_match)',
                    'lxml/libxml2 tokenising; event validation (events generated valid)']
-    ck.assumptions += ['handlers are registered before parsing starts', 'generated events are valid for their type',
+    ck.assumptions += ['handlers are registered before parsing starts, or mid-stream under type names / source patterns that already have a handler', 'generated events are valid for their type',
                        'order between different source patterns is not asserted by the oracle (per-key order only)']
     ck.prove()
     n = ck.budget(1500, 30000)
@@ -287,7 +292,35 @@ def main(argv):
         ck.sample({'input': case, 'observed': res})
         for clause, detail in oracle(case, res):
             ck.oracle_failures.append({'signature': clause, 'input': case, 'observed': res, 'expected': detail})
-    ck.cov['evaluations'] = len(cases)
+    # handlers registered mid-stream (between two top-level children, push parser): judged by the oracle only
+    nlate = 0
+    for i in range(ck.budget(250, 4000)):
+        case = gen_case(ck.rng, i)
+        if len(case['doc']) < 3 or not case['regs']:
+            continue
+        case['mode'] = 'pushb'
+        at = ck.rng.randint(1, len(case['doc']) - 1)
+        late = []
+        hid = 50
+        for _ in range(ck.rng.randint(1, 2)):
+            # one more handler under keys that are registered already (a source pattern that is new mid-stream only takes effect with the
+            # next ontology element, when the parser matches patterns against source URIs: not asserted here)
+            kind, keys, _h = ck.rng.choice(case['regs'])
+            late.append((kind, ck.rng.sample(list(keys), ck.rng.randint(1, len(keys))), hid))
+            hid += 1
+        case['late'] = [at, late]
+        try:
+            res = run_impl(case)
+        except Exception as e:
+            ck.oracle_failures.append({'signature': 'foreign-exception/' + type(e).__name__, 'input': case, 'observed': repr(e)})
+            continue
+        if res['err'] >= 90:
+            continue
+        nlate += 1
+        for clause, detail in oracle(case, res):
+            ck.oracle_failures.append({'signature': 'late-registration/' + clause, 'input': case, 'observed': res, 'expected': detail})
+    ck.dist('late-registration-cases', nlate)
+    ck.cov['evaluations'] = len(cases) + nlate
     ck.cov['rule'] = ('random registration sets x documents (1-12 top-level children, 0-3 ontology elements, undefined '
                       'types/sources 6%) x pull/push/push-bytewise; non-trivial = some event reaches >=2 handlers or the '
                       'document has >1 ontology element; distinct by (registrations, document, fallback)')
